@@ -132,6 +132,9 @@ func H_C10_history() {
 			_, err := g.finishUpload(vCtx(), dontNeedUrls, &storage.Object{Bucket: "b", Name: n}, []byte("never"), "b",
 				cloudstorage.Conditions{GenerationMatch: 12345})
 			vAssert(err != nil, "precondition-fails")
+			// ... and an upload whose declared MD5 does not match its bytes
+			_, err = g.finishUpload(vCtx(), dontNeedUrls, &storage.Object{Bucket: "b", Name: n, Md5Hash: "1B2M2Y8AsgTpgAmY7PhCfg=="}, []byte("never"), "b", emptyConds)
+			vAssert(err != nil && httpStatusCodeOf(err) == http.StatusBadRequest, "md5-mismatch-fails")
 		case 3: // reads
 			w := vNewRecorder()
 			g.handleGcsMediaRequest(dontNeedUrls, w, "", "b", n)
